@@ -1,6 +1,7 @@
-"""C09 sub-strategy index = stand-alone index: nested generated backtests (calendar-gated children, any parent allocation
-schedule incl. never funding the child, integer/fractional, commissions) vs the same child definition backtested on its own;
-the child's price series, and the column the parent sees in its universe, compared date for date bit for bit."""
+"""C09 sub-strategy index = stand-alone index: nested generated backtests (children with any head: calendar schedulers, RunOnce,
+RunEveryNPeriods, RunAfterDays, RunAfterDate, RunOnDate, no scheduler at all; any parent allocation schedule incl. never funding the
+child, integer/fractional, commissions) vs the same child definition backtested on its own; the child's price series, and the column
+the parent sees in its universe, compared date for date bit for bit."""
 import copy
 
 import numpy as np
@@ -8,15 +9,46 @@ import numpy as np
 from .. import engine as E
 from .. import gen_runs as R
 
-RULE = ("nested programs: 1-2 sub-strategies with calendar-gated stacks (RunDaily/Weekly/Monthly with all flag combinations) over subsets of "
-        "the tickers, parents with any stack (funding children always / sometimes / never), crash paths that bankrupt the child's shadow copy, "
+RULE = ("nested programs: 1-2 sub-strategies over subsets of the tickers whose stacks are headed by a calendar scheduler (RunDaily/Weekly/Monthly, all "
+        "flag combinations), a counting scheduler (RunOnce, RunEveryNPeriods, RunAfterDays), a date scheduler or no scheduler at all; parents with any "
+        "stack (funding children always / sometimes / never), crash paths that bankrupt the child's shadow copy, "
         "integer and fractional, commission family; stand-alone twin = bt.Backtest of the same child definition with the same settings and the "
         "default capital. distinct = (child schedule+flags, child stack, parent stack head, integer, commission, child bankrupt?)")
-ASSUMPTIONS = ["children are gated by a calendar scheduler (the property's quantifier); identical operations in identical order, so equality is demanded bit for bit"]
+ASSUMPTIONS = ["identical operations in identical order, so equality is demanded bit for bit",
+               "since the repair of StrategyBase.update (a shadow copy is not run on the first row of the data) the child's head may be any scheduler or none: "
+               "the calendar-scheduler restriction of the property's quantifier is no longer needed"]
+
+
+COUNTING = ("RunOnce", "RunEveryNPeriods", "RunAfterDays")
+
+
+def counting_head(rng):
+    r = rng.random()
+    if r < 0.35:
+        return ["RunOnce"]
+    if r < 0.7:
+        n = rng.randint(1, 4)
+        return ["RunEveryNPeriods", n, rng.randint(0, max(0, n - 1))]
+    return ["RunAfterDays", rng.randint(1, 6)]
+
+
+def gen_counting_child_case(rng):
+    """a market-value parent over sub-strategies whose stacks act on their FIRST call: headed by RunOnce / RunEveryNPeriods /
+    RunAfterDays, or with no scheduler at all.  Before the repair the shadow copy's first call was on the synthetic row (RunOnce never
+    traded inside a parent, the period counters were one call ahead, a stack without a scheduler raised on the NaN prices)."""
+    spec = R.gen_run_spec(rng, nested=True, crash=rng.random() < 0.2, calendar_children=True)
+    for kid in spec["tree"]["kids"]:
+        r = rng.random()
+        if r < 0.85:
+            kid["stack"] = [counting_head(rng)] + kid["stack"][1:]
+        elif r < 0.95:
+            kid["stack"] = kid["stack"][1:]          # no scheduler: acts on every call
+    spec["counting_children"] = True
+    return spec
 
 
 def gen_case(rng):
-    spec = R.gen_run_spec(rng, nested=True, crash=rng.random() < 0.3, calendar_children=True)
+    spec = R.gen_run_spec(rng, nested=True, crash=rng.random() < 0.3, calendar_children=rng.random() < 0.6)
     if rng.random() < 0.2:
         # leveraged child: its shadow copy can go bankrupt
         kid = rng.choice(spec["tree"]["kids"])
@@ -81,7 +113,7 @@ def run_case(ctx, bt, spec):
         ctx.count("children-compared:depth-%d" % depth)
         ctx.count("child-funded" if funded else "child-never-funded")
         bankrupt = bool(sb.strategy.bankrupt)
-        ctx.classes.add((tuple(kid["stack"][0]), tuple(d[0] for d in kid["stack"][1:]), spec["tree"]["stack"][0][0], spec["integer"], spec["comm"][0], bankrupt, funded, depth))
+        ctx.classes.add((repr(kid["stack"][0]), tuple(d[0] for d in kid["stack"][1:]), spec["tree"]["stack"][0][0], spec["integer"], spec["comm"][0], bankrupt, funded, depth))
         rd = {"spec": spec, "child": ">".join(names)}
         if len(cp) != len(sp):
             ctx.violation("C09/length", "child %s has %d index rows, stand-alone %d" % (kid["name"], len(cp), len(sp)), rd)
@@ -89,7 +121,8 @@ def run_case(ctx, bt, spec):
         bad = [i for i in range(len(cp)) if E.f2b(cp[i]) != E.f2b(sp[i]) and not (cp[i] == sp[i])]
         if bad:
             i = bad[0]
-            key = "C09/index-differs" + (":after-own-bankruptcy" if bankrupt else "")
+            key = "C09/index-differs" + (":after-own-bankruptcy" if bankrupt else
+                                         ":counting-scheduler-child" if kid["stack"][0][0] in COUNTING or not kid["stack"][0][0].startswith("Run") else "")
             ctx.violation(key, "child %s (depth %d) index on date#%d is %r nested but %r stand-alone (stand-alone bankrupt=%s; first rows nested %r / alone %r)"
                           % (">".join(names), depth, i, cp[i], sp[i], bankrupt, list(cp[max(0, i - 2):i + 2]), list(sp[max(0, i - 2):i + 2])), rd)
             continue
@@ -268,8 +301,36 @@ def fi_nested_cases(ctx, bt, n):
             ctx.violation("C09/universe-column", "fixed-income parent: universe column on date#%d is %r, child index %r" % (i, col[i], cp[i]), rd)
 
 
+def gen_counting_x(rng):
+    """a nested extended program at least one of whose sub-strategies is headed by RunOnce / RunEveryNPeriods / RunAfterDays"""
+    from .. import whole_run as W
+
+    def has(t, top=True):
+        return ((not top) and t["stack"] and t["stack"][0][0] in ("RunOnce", "RunEveryNPeriods", "RunAfterDays", "CapitalFlow") and
+                any(d[0] in ("RunOnce", "RunEveryNPeriods", "RunAfterDays") for d in t["stack"][:2])) or any(has(k, False) for k in t["kids"])
+    spec = None
+    for _ in range(40):
+        spec = W.gen_spec_x(rng, nested=True)
+        if has(spec["tree"]):
+            break
+    return spec
+
+
+def corpus():
+    import json
+    import os
+    p = os.path.join(os.path.dirname(os.path.dirname(os.path.dirname(os.path.abspath(__file__)))), "corpus", "C09_counting_scheduler_child.json")
+    return json.load(open(p)) if os.path.exists(p) else []
+
+
 def run(ctx, bt):
-    # fi_nested_cases(ctx, bt, ctx.scale(30, 600))   # enabled with the repair of the shadow copy running on the first row
+    # regression cases of the repaired defect C09/index-differs:counting-scheduler-child (sub-strategies headed by RunOnce /
+    # RunEveryNPeriods / RunAfterDays whose index differed nested vs stand-alone before the repair of StrategyBase.update)
+    for spec in corpus():
+        ctx.evaluations += 1
+        ctx.count("corpus:counting-scheduler-child")
+        run_case(ctx, bt, spec)
+    fi_nested_cases(ctx, bt, ctx.scale(30, 600))
     for _ in range(ctx.scale(25, 500)):
         spec = gen_deep_case(ctx.rng)
         ctx.evaluations += 1
@@ -284,13 +345,24 @@ def run(ctx, bt):
         if len(ctx.samples) < 2:
             ctx.sample({"tree": spec["tree"], "integer": spec["integer"], "comm": spec["comm"]})
         run_case(ctx, bt, spec)
+    for _ in range(ctx.scale(40, 800)):
+        spec = gen_counting_child_case(ctx.rng)
+        ctx.evaluations += 1
+        ctx.count("counting-scheduler-children:programs")
+        for kid in spec["tree"]["kids"]:
+            ctx.count("counting-scheduler-children:head:" + (kid["stack"][0][0] if kid["stack"][0][0].startswith("Run") else "none"))
+        run_case(ctx, bt, spec)
     from ..runs_run import run_days_protocol
-    run_days_protocol(ctx, bt, ctx.scale(12, 300), None, "btday[C09]:root-and-shadow-copies", make_spec=gen_case)
+    run_days_protocol(ctx, bt, ctx.scale(12, 300), None, "btday[C09]:root-and-shadow-copies",
+                      make_spec=lambda rng: gen_counting_child_case(rng) if rng.random() < 0.4 else gen_case(rng))
     paper_calls_protocol(ctx, bt, ctx.scale(15, 300))
     from .. import whole_run as W
     # nested backtests executed end to end by the model, every shadow copy being a stand-alone backtest of the child's program
     W.whole_run_protocol(ctx, bt, ctx.scale(25, 500), "whole-run[C09]:nested-programs",
                          make_spec=lambda rng: W.gen_spec(rng, nested=True, depth3=rng.random() < 0.3))
+    # ... and nested extended programs in which some sub-strategy is headed by a counting scheduler: the model's shadow copies are
+    # not run on the first date either (simDayG0), the scheduler model receives its first call on the first real date everywhere
+    W.whole_run_protocol(ctx, bt, ctx.scale(20, 400), "whole-run-x[C09]:counting-scheduler-children", make_spec=gen_counting_x, extended=True)
 
 
 def search(ctx, bt):
